@@ -15,7 +15,7 @@ import attrs
 from . import specmodel
 
 NoneType = type(None)
-REPLAY_DIR = os.path.join(os.path.dirname(os.path.dirname(os.path.abspath(__file__))), "replays")
+REPLAY_DIR = os.environ.get("VERIF_REPLAY_DIR") or os.path.join(os.path.dirname(os.path.dirname(os.path.abspath(__file__))), "replays")
 
 
 def _lsp():
